@@ -258,6 +258,18 @@ impl<'a> Gen<'a> {
                 return Some(ident(&n));
             }
         }
+        // a variable that does not hold an int, combined with an int literal (either side): a type error on the
+        // generic path, and it must be one on the specialised <op>LocalConst path as well
+        if self.r.chance(1, 4) {
+            let vs: Vec<Var> = self.visible().into_iter().filter(|v| matches!(v.ty, Ty::Str | Ty::Float | Ty::Bool | Ty::Arr(_)) && !v.mutable_str).collect();
+            if !vs.is_empty() {
+                let v = ident(&vs[self.r.below(vs.len() as u64) as usize].name);
+                let op = *self.r.pick(&[Op::Add, Op::Subtract, Op::Multiply, Op::Divide, Op::Modulo, Op::Lt, Op::Lte, Op::Gt, Op::Gte, Op::Eq, Op::Neq, Op::Eq, Op::Neq]);
+                let lit_ = Expr::Int(self.r.range(0, 9));
+                self.fault_used = Some("non-int-variable-with-int-literal");
+                return Some(if self.r.chance(1, 2) { infix(v, op, lit_) } else { infix(lit_, op, v) });
+            }
+        }
         let k = self.r.below(6);
         let (name, e) = match k {
             0 => ("zero-divisor", infix(Expr::Int(self.small_int().abs().min(1000) + 1), if self.r.chance(1, 2) { Op::Divide } else { Op::Modulo }, Expr::Int(0))),
